@@ -2035,6 +2035,39 @@ theorem spec_of_the_source_line_sum (sub : String → Nat) (ls : List BillCalcSr
   · rw [foldl_accum_toRat]; simp [Amount.toRat]
   · exact foldl_accum_exp_ge _ ⟨0, sub cur⟩
 
+/-- what an `.ok` result of the regenerated `calculateLine` says about the model (from `src_calculateLine`) -/
+theorem src_calculateLine_ok (o : Ops) (sub : String → Nat) (l l' : BillCalcSrc.Line) (cur : String)
+    (rates : List XRate) (rr : String) (hr : ∀ r ∈ rates, r.toSub = sub r.to) (hs : l.Substituted = [])
+    (h : BillCalcSrc.calculateLine o sub l cur rates rr = .ok l') :
+    calcLine o cur (sub cur) rates (ruleOf rr) (toLine (toItem sub cur) l) = .ok (toLine (toItem sub cur) l') := by
+  rw [← src_calculateLine o sub l cur rates rr hr hs, h]; rfl
+
+/-- C01 headline "the line sum is ONE rounding of price × quantity", about the code: for a plain
+    line (item priced in the document currency, no breakdown, no substituted sub-lines) the
+    regenerated `calculateLine` under `precise` leaves a sum with at least currency + 2 decimals
+    whose value is the exact product price × quantity rounded half away from zero exactly once -/
+theorem spec_of_the_source_line_sum_precise (sub : String → Nat) (l l' : BillCalcSrc.Line) (it : BillCalcSrc.Item)
+    (p : Amount) (cur : String) (rates : List XRate) (hr : ∀ r ∈ rates, r.toSub = sub r.to)
+    (hit : l.Item = some it) (hcur : it.Currency = "") (hp : it.Price = some p) (hbd : l.Breakdown = [])
+    (hs : l.Substituted = []) (h : BillCalcSrc.calculateLine exactOps sub l cur rates "precise" = .ok l') :
+    ∃ s, l'.Sum = some s ∧ sub cur + 2 ≤ s.exp ∧ s.value = roundTo s.exp (p.toRat * l.Quantity.toRat) := by
+  have hm := src_calculateLine_ok exactOps sub l l' cur rates "precise" hr hs h
+  have hrule : ruleOf "precise" = .precise := by decide
+  rw [hrule] at hm
+  exact line_sum_precise cur (sub cur) rates (toLine (toItem sub cur) l) (toLine (toItem sub cur) l')
+    (toItem sub cur it) p (by simp [toLine, hit]) hcur hp (by simp [toLine, hbd]) hm
+
+/-- the hypotheses are satisfiable and the code computes: 3 × 33.335 EUR under `precise` is 100.0050
+    (four decimals, no rounding yet), under `currency` 100.01 (rounded once, half away from zero) -/
+def srcPlainLine : BillCalcSrc.Line :=
+  { Quantity := ⟨3, 0⟩, Item := some ⟨"", some ⟨33335, 3⟩, []⟩, Breakdown := [], Sum := none,
+    Discounts := [], Charges := [], Taxes := [], Total := none, Substituted := [] }
+
+example :
+    ((BillCalcSrc.calculateLine exactOps (fun _ => 2) srcPlainLine "EUR" [] "precise").toOption.map (·.Sum)) = some (some ⟨1000050, 4⟩) ∧
+    ((BillCalcSrc.calculateLine exactOps (fun _ => 2) srcPlainLine "EUR" [] "currency").toOption.map (·.Sum)) = some (some ⟨10001, 2⟩) := by
+  decide +kernel
+
 /-- C01 "presentation", about the code: after the regenerated `(*Totals).round`
     every presented total has exactly the currency's number of decimals -/
 theorem spec_of_the_source_presented_precision (sub : String → Nat) (t : Totals) (zero : Amount) :
